@@ -28,12 +28,35 @@ import (
 // dominator dominated by all others, DF* by its definition. M-panic around
 // every library call. M-step: the library only ever sees a counting BiGraph
 // whose methods panic with a sentinel once a polynomial budget is exceeded.
+//
+// The graph object of a case is built once and never repaired: histories query
+// it with several roots in a row, and every answer is judged against the graph
+// as the caller built it (a call that damaged the lists shows up in the values
+// of the calls that follow: kind history-after-modification). The lists are
+// served with exact capacity, as sub-slices of one back-to-back array, or with
+// canary cells between them. IDom -> DomFrontier -> Dom run on one slice
+// (kind pipeline-Dom when the tree built from it is wrong).
 
 type c19Case struct {
 	Out  [][]int `json:"out"`          // successor lists, order and multiplicity as handed to the library
 	In   [][]int `json:"in,omitempty"` // predecessor lists (the transpose, in the order handed to the library); nil = ascending
 	Root int     `json:"root"`
+	// Roots (history): further roots queried one after another, after Root,
+	// on one and the same graph object (the lists are not rebuilt in between).
+	Roots []int `json:"roots,omitempty"`
+	// Layout of the lists the library gets to see: 0 every list with exact
+	// capacity; 1 compressed-sparse-row storage, In(i)/Out(i) are 2-index
+	// sub-slices of one back-to-back array (their capacity reaches into the
+	// following lists); 2 like 1 with a few canary cells after every list.
+	Layout int `json:"layout,omitempty"`
 }
+
+const (
+	c19Exact  = 0
+	c19CSR    = 1
+	c19Slack  = 2
+	c19Canary = -0x5ca1ab1e
+)
 
 func init() {
 	mon.Register(&mon.Prop{ID: "C19", Run: c19Run, Replay: func(w *mon.W, v *mon.ViolationRec) {
@@ -247,34 +270,73 @@ func (sc *c19Scratch) reference(out [][]int, root int) (*c19Want, error) {
 	return wt, nil
 }
 
-// libGraph makes the private deep copy that the library gets to see (exact
-// capacities, one backing array).
-func (sc *c19Scratch) libGraph(out, in [][]int) {
+// libGraph makes the private deep copy that the library gets to see, in one
+// backing array. Layout c19Exact: every list has exact capacity. c19CSR: the
+// lists lie back to back and are handed out as flat[a:b], as a
+// compressed-sparse-row graph does, so that their capacity reaches into the
+// lists that follow (an append by the library lands in a neighbouring list of
+// the caller's graph). c19Slack: as c19CSR with 1..3 canary cells after every
+// list (an append lands in the slack and harms nothing).
+func (sc *c19Scratch) libGraph(out, in [][]int, layout int) {
 	n := len(out)
 	m := 0
 	for _, l := range out {
 		m += len(l)
 	}
-	if cap(sc.libFlat) < 2*m {
-		sc.libFlat = make([]int, 2*m)
+	need := 2 * m
+	if layout == c19Slack {
+		need += 6 * n
+	}
+	if cap(sc.libFlat) < need {
+		sc.libFlat = make([]int, need)
 	}
 	if cap(sc.libOut) < n {
 		sc.libOut, sc.libIn = make([][]int, n), make([][]int, n)
 	}
 	sc.libOut, sc.libIn = sc.libOut[:n], sc.libIn[:n]
-	flat := sc.libFlat[:2*m]
+	flat := sc.libFlat[:need]
 	pos := 0
-	for v := 0; v < n; v++ {
-		k := copy(flat[pos:], out[v])
-		sc.libOut[v] = flat[pos : pos+k : pos+k]
-		pos += k
+	place := func(dst [][]int, src [][]int) {
+		for v := 0; v < n; v++ {
+			k := copy(flat[pos:], src[v])
+			switch layout {
+			case c19Exact:
+				dst[v] = flat[pos : pos+k : pos+k]
+				pos += k
+			case c19CSR:
+				dst[v] = flat[pos : pos+k]
+				pos += k
+			default:
+				dst[v] = flat[pos : pos+k]
+				pos += k
+				for s := c19SlackCells(v, k); s > 0; s-- {
+					flat[pos] = c19Canary
+					pos++
+				}
+			}
+		}
 	}
-	for v := 0; v < n; v++ {
-		k := copy(flat[pos:], in[v])
-		sc.libIn[v] = flat[pos : pos+k : pos+k]
-		pos += k
-	}
+	place(sc.libOut, out)
+	place(sc.libIn, in)
 	sc.g.out, sc.g.in = sc.libOut, sc.libIn
+}
+
+func c19SlackCells(v, k int) int { return 1 + (v+k)%3 }
+
+// canariesIntact says whether the slack cells of layout c19Slack still hold
+// their canaries.
+func (sc *c19Scratch) canariesIntact() bool {
+	for _, ls := range [2][][]int{sc.libOut, sc.libIn} {
+		for v, l := range ls {
+			full := l[:len(l)+c19SlackCells(v, len(l))]
+			for _, x := range full[len(l):] {
+				if x != c19Canary {
+					return false
+				}
+			}
+		}
+	}
+	return true
 }
 
 func c19SameLists(a, b [][]int) bool {
@@ -308,8 +370,13 @@ func c19Transpose(out [][]int) [][]int {
 // transpose of Out as a multiset.
 func c19WellFormed(c c19Case) bool {
 	n := len(c.Out)
-	if n == 0 || c.Root < 0 || c.Root >= n {
+	if n == 0 || c.Root < 0 || c.Root >= n || c.Layout < c19Exact || c.Layout > c19Slack {
 		return false
+	}
+	for _, r := range c.Roots {
+		if r < 0 || r >= n {
+			return false
+		}
 	}
 	for _, l := range c.Out {
 		for _, u := range l {
@@ -342,14 +409,24 @@ func c19WellFormed(c c19Case) bool {
 }
 
 func c19Describe(c c19Case) string {
+	extra := ""
+	if len(c.Roots) > 0 {
+		extra = fmt.Sprintf(" then roots %v on the same graph object", c.Roots)
+	}
+	switch c.Layout {
+	case c19CSR:
+		extra += " [lists are sub-slices flat[a:b] of one back-to-back array]"
+	case c19Slack:
+		extra += " [lists are sub-slices flat[a:b] of one array with canary cells between them]"
+	}
 	if len(c.Out) <= 12 {
-		return fmt.Sprintf("out=%v in=%v root=%d", c.Out, c.In, c.Root)
+		return fmt.Sprintf("out=%v in=%v root=%d%s", c.Out, c.In, c.Root, extra)
 	}
 	m := 0
 	for _, l := range c.Out {
 		m += len(l)
 	}
-	return fmt.Sprintf("graph with %d nodes, %d edges, root=%d (see replay file)", len(c.Out), m, c.Root)
+	return fmt.Sprintf("graph with %d nodes, %d edges, root=%d%s (see replay file)", len(c.Out), m, c.Root, extra)
 }
 
 // sortedSet returns the ascending duplicate-free copy of l (in sc.tmp) and
@@ -381,9 +458,14 @@ func (sc *c19Scratch) sortedSet(l []int) ([]int, bool) {
 
 // ---- the judge ---------------------------------------------------------------
 
+// c19Judge runs one case: the graph object is built once (in the case's
+// storage layout) and is then queried with the case's root and, for a history
+// case, with the further roots, one after another, without ever being rebuilt
+// or repaired. Every answer is judged against the reference computed for the
+// caller's graph (c.Out, c.In, which the library never sees) and that root.
 func c19Judge(w *mon.W, c c19Case, sc *c19Scratch, distinct bool) {
-	n, root := len(c.Out), c.Root
-	if n == 0 || root < 0 || root >= n {
+	n := len(c.Out)
+	if n == 0 || c.Root < 0 || c.Root >= n {
 		return
 	}
 	if c19TotalViol.Load() > c19GiveUp {
@@ -401,91 +483,31 @@ func c19Judge(w *mon.W, c c19Case, sc *c19Scratch, distinct bool) {
 		in = c19Transpose(c.Out)
 		c.In = in
 	}
-	want, err := sc.reference(c.Out, root)
-	if err != nil {
-		w.R.Inconclusive("reference inconsistent: " + err.Error())
-		return
-	}
 
-	// ---- classes: inputs and reference-side quantities only
-	rootIn := len(in[root])
-	switch {
-	case rootIn == 0:
-		w.Hit("root-in-0")
-	case rootIn == 1:
-		w.Hit("root-in-1(carve-out)")
+	// ---- classes of the case as a whole (inputs only)
+	switch c.Layout {
+	case c19CSR:
+		w.Hit("layout-csr-shared-capacity")
+	case c19Slack:
+		w.Hit("layout-slack-canaries")
 	default:
-		w.Hit("root-in>=2")
+		w.Hit("layout-exact-capacity")
 	}
-	var unreach, selfLoop, joinUnreach, parJoin, parOnly, highID, dfRoot bool
-	nReach := 0
-	for y := 0; y < n; y++ {
-		if !want.reach[y] {
-			unreach = true
-			continue
-		}
-		nReach++
-		if y >= 1024 {
-			highID = true
-		}
-		preds := in[y]
-		dup, other := false, false
-		for i, p := range preds {
-			if p == y {
-				selfLoop = true
-			}
-			if !want.reach[p] && len(preds) >= 2 {
-				joinUnreach = true
-			}
-			if p != preds[0] {
-				other = true
-			}
-			if !dup && len(preds) <= 96 {
-				for _, q := range preds[:i] {
-					if q == p {
-						dup = true
-						break
-					}
-				}
-			}
-		}
-		if dup && other {
-			parJoin = true
-		}
-		if dup && !other {
-			parOnly = true
-		}
-	}
-	for x := 0; x < n && !dfRoot; x++ {
-		if want.reach[x] {
-			for _, y := range want.df[x] {
-				if y == root {
-					dfRoot = true
-				}
+	if len(c.Roots) > 0 {
+		w.Hit("history-several-roots")
+		for _, r := range c.Roots {
+			if r == c.Root {
+				w.Hit("history-returns-to-first-root")
+				break
 			}
 		}
 	}
-	w.HitIf(unreach, "unreachable-nodes")
-	w.HitIf(joinUnreach, "join-with-unreachable-pred")
-	w.HitIf(selfLoop, "self-loop")
-	for _, p := range in[root] {
-		if p == root {
-			w.Hit("root-self-loop")
-			break
-		}
-	}
-	w.HitIf(parJoin, "parallel-edges-into-join")
-	w.HitIf(parOnly, "parallel-edges-single-pred")
-	w.HitIf(want.irreducible, "irreducible-loop")
-	w.HitIf(highID, "reachable-node-id>=1024")
-	w.HitIf(dfRoot && rootIn != 1, "root-in-some-frontier")
-	w.HitIf(nReach == 1 && n > 1, "only-root-reachable")
 	if distinct {
-		h := mon.NewHasher().I(n).I(root)
+		h := mon.NewHasher().I(n).I(c.Root).I(c.Layout).Is(c.Roots)
 		for v := 0; v < n; v++ {
 			h = h.Is(c.Out[v]).Is(in[v])
 		}
-		w.Distinct(h.Sum())
+		w.Distinct(h.Sum()) // the layout class above has marked the case non-trivial
 	}
 
 	// viol records a violation; once a kind has been reported many times the
@@ -499,8 +521,8 @@ func c19Judge(w *mon.W, c c19Case, sc *c19Scratch, distinct bool) {
 		}
 	}
 
-	// ---- the library's view
-	sc.libGraph(c.Out, in)
+	// ---- the library's view: built once per case
+	sc.libGraph(c.Out, in, c.Layout)
 	g := &sc.g
 	budget := c19StepBudget(n)
 	slot := sc.slot
@@ -517,202 +539,492 @@ func c19Judge(w *mon.W, c c19Case, sc *c19Scratch, distinct bool) {
 			fn()
 		}
 	}
-	intact := func() {
-		if !c19SameLists(sc.libOut, c.Out) || !c19SameLists(sc.libIn, in) {
-			// not this property's business (C20), but later calls must see the real graph
-			w.Note("library-modified-graph-lists")
-			sc.libGraph(c.Out, in)
+
+	// modified: the lists of the graph object differ from the caller's graph
+	// because an earlier library call wrote into them. Modifying the lists is
+	// not judged here (C20); but nothing is repaired: the caller still holds
+	// that one graph object, and what later calls answer for it is judged
+	// against the graph as the caller built it.
+	modified, modWhat, slackNoted := false, "", false
+	// tripped: a call of this case ran into the step budget. Such calls are
+	// slow (a recursion hundreds of thousands of frames deep); the case is
+	// refuted, so the further roots of a history are not queried any more.
+	tripped := false
+	curRoot, step := c.Root, 0
+	intact := func(op string) {
+		if c.Layout == c19Slack && !slackNoted && !sc.canariesIntact() {
+			slackNoted = true
+			w.Note("library-wrote-into-spare-capacity-of-a-list(not judged)")
 		}
+		same := c19SameLists(sc.libOut, c.Out) && c19SameLists(sc.libIn, in)
+		if !same && !modified {
+			w.Note("library-modified-graph-lists")
+			modWhat = fmt.Sprintf("%s with root %d changed the caller's graph: %s", op, curRoot, c19ListDiff(sc.libOut, c.Out, sc.libIn, in))
+		}
+		modified = !same
+	}
+	// kindOf names a violation: calls made on a graph object that an earlier
+	// call has modified are the history-after-modification kind; calls with a
+	// later root of a history carry the history- prefix.
+	kindOf := func(pre bool, kind string) string {
+		if pre {
+			return "history-after-modification"
+		}
+		if step > 0 {
+			return "history-" + kind
+		}
+		return kind
+	}
+	ctx := func(pre bool) string {
+		s := ""
+		if step > 0 {
+			s = fmt.Sprintf(" [query %d on this graph object, root %d]", step+1, curRoot)
+		}
+		if pre {
+			s += " [" + modWhat + "; judged against the graph as the caller built it]"
+		}
+		return s
 	}
 	// call runs one library call under M-panic and M-step.
 	call := func(op, stepKey string, fn func()) bool {
+		pre := modified
 		g.calls, g.budget = 0, budget
 		w.Eval(op)
 		p, v := mon.Call(inflight(op, fn))
 		w.Err(stepKey, float64(g.calls), float64(budget))
-		intact()
+		intact(op)
 		if !p {
 			return true
 		}
 		if b, ok := v.(c19Budget); ok {
-			viol("nontermination-"+op, func() string {
-				return fmt.Sprintf("%s made %d calls into the graph, budget %d (n=%d): not terminating; %s", op, b.Calls, b.Budget, n, c19Describe(c))
+			tripped = true
+			// a call that runs into the budget costs about a second (deep
+			// recursion, stack growth, stack scanning): such a case weighs 40
+			// towards the give-up count, so that a tree whose calls do not
+			// terminate is given up after 500 of them
+			c19TotalViol.Add(39)
+			kind := "nontermination-" + op
+			if pre {
+				kind = kindOf(pre, kind)
+			}
+			viol(kind, func() string {
+				return fmt.Sprintf("%s made %d calls into the graph, budget %d (n=%d): not terminating%s; %s", op, b.Calls, b.Budget, n, ctx(pre), c19Describe(c))
 			})
 		} else {
-			viol("panic-"+op, func() string { return fmt.Sprintf("%s panicked: %v; %s", op, v, c19Describe(c)) })
+			kind := "panic-" + op
+			if pre {
+				kind = kindOf(pre, kind)
+			}
+			viol(kind, func() string { return fmt.Sprintf("%s panicked: %v%s; %s", op, v, ctx(pre), c19Describe(c)) })
 		}
 		return false
 	}
 
-	// ---- IDom
-	var idom []int
-	if call("IDom", "graph-calls-over-budget/IDom", func() { idom = graphalg.IDom(g, root) }) {
-		bad := 0
-		if len(idom) != n {
-			bad = 1
-			viol("IDom-len", func() string {
-				return fmt.Sprintf("IDom returned %d entries for %d nodes; %s", len(idom), n, c19Describe(c))
-			})
-		} else {
-			first := -1
-			for v := 0; v < n; v++ {
-				if idom[v] != want.idom[v] {
-					if first < 0 {
-						first = v
+	var reachSeen uint64 // nodes reachable from some earlier root of this case (n <= 64)
+
+	runRoot := func(root int) {
+		curRoot = root
+		want, err := sc.reference(c.Out, root)
+		if err != nil {
+			w.R.Inconclusive("reference inconsistent: " + err.Error())
+			return
+		}
+
+		// ---- classes: inputs and reference-side quantities only
+		rootIn := len(in[root])
+		switch {
+		case rootIn == 0:
+			w.Hit("root-in-0")
+		case rootIn == 1:
+			w.Hit("root-in-1(carve-out)")
+		default:
+			w.Hit("root-in>=2")
+		}
+		var unreach, selfLoop, joinUnreach, parJoin, parOnly, highID, dfRoot bool
+		nReach := 0
+		var reachMask uint64
+		for y := 0; y < n; y++ {
+			if !want.reach[y] {
+				unreach = true
+				continue
+			}
+			nReach++
+			if y < 64 {
+				reachMask |= 1 << uint(y)
+			}
+			if y >= 1024 {
+				highID = true
+			}
+			preds := in[y]
+			dup, other := false, false
+			for i, p := range preds {
+				if p == y {
+					selfLoop = true
+				}
+				if !want.reach[p] && len(preds) >= 2 {
+					joinUnreach = true
+				}
+				if p != preds[0] {
+					other = true
+				}
+				if !dup && len(preds) <= 96 {
+					for _, q := range preds[:i] {
+						if q == p {
+							dup = true
+							break
+						}
 					}
-					bad++
 				}
 			}
-			if first >= 0 {
-				why := "closest strict dominator by node deletion"
-				if first == root {
-					why = "the root has none"
-				} else if !want.reach[first] {
-					why = "node is unreachable from the root"
-				}
-				viol("IDom", func() string {
-					return fmt.Sprintf("IDom[%d]=%d, want %d (%s); %d entries differ; %s", first, idom[first], want.idom[first], why, bad, c19Describe(c))
-				})
+			if dup && other {
+				parJoin = true
+			}
+			if dup && !other {
+				parOnly = true
 			}
 		}
-		w.Err("IDom-entries-differing", float64(bad), 0.5)
-	}
-
-	// ---- Dom(idom*)
-	sc.idomArg = append(sc.idomArg[:0], want.idom...)
-	var tree *graphalg.DomTree
-	w.Eval("Dom")
-	if p, v := mon.Call(inflight("Dom", func() { tree = graphalg.Dom(sc.idomArg) })); p {
-		viol("panic-Dom", func() string { return fmt.Sprintf("Dom(%v) panicked: %v", want.idom, v) })
-	} else if tree == nil {
-		viol("Dom", func() string { return fmt.Sprintf("Dom(%v) returned nil", want.idom) })
-	} else {
-		msg := ""
-		p, v := mon.Call(func() {
-			if nn := tree.NumNodes(); nn != n {
-				msg = fmt.Sprintf("NumNodes()=%d, want %d", nn, n)
-				return
-			}
-			for v := 0; v < n && msg == ""; v++ {
-				if d := tree.IDom(v); d != want.idom[v] {
-					msg = fmt.Sprintf("IDom(%d)=%d, want %d", v, d, want.idom[v])
-					break
-				}
-				// children of v by inverting idom*
-				sc.kids = sc.kids[:0]
-				for ch, par := range want.idom {
-					if par == v {
-						sc.kids = append(sc.kids, ch)
+		for x := 0; x < n && !dfRoot; x++ {
+			if want.reach[x] {
+				for _, y := range want.df[x] {
+					if y == root {
+						dfRoot = true
 					}
 				}
-				gotOut := tree.Out(v)
-				set, dup := sc.sortedSet(gotOut)
-				if dup || len(set) != len(sc.kids) {
-					msg = fmt.Sprintf("Out(%d)=%v, want the children %v", v, gotOut, sc.kids)
+			}
+		}
+		w.HitIf(unreach, "unreachable-nodes")
+		w.HitIf(joinUnreach, "join-with-unreachable-pred")
+		w.HitIf(selfLoop, "self-loop")
+		for _, p := range in[root] {
+			if p == root {
+				w.Hit("root-self-loop")
+				break
+			}
+		}
+		w.HitIf(parJoin, "parallel-edges-into-join")
+		w.HitIf(parOnly, "parallel-edges-single-pred")
+		w.HitIf(want.irreducible, "irreducible-loop")
+		w.HitIf(highID, "reachable-node-id>=1024")
+		w.HitIf(dfRoot && rootIn != 1, "root-in-some-frontier")
+		w.HitIf(nReach == 1 && n > 1, "only-root-reachable")
+		if c.Layout != c19Exact {
+			// the cell that follows the root's predecessor list in the shared
+			// array: for the back-to-back layout it is the first predecessor of
+			// the next node with predecessors
+			for v := root + 1; v < n; v++ {
+				if len(in[v]) > 0 {
+					w.HitIf(len(in[v]) >= 2 && want.reach[v], "shared-array:list-after-root's-in-list-is-a-reachable-join's")
 					break
 				}
-				for i := range set {
-					if set[i] != sc.kids[i] {
+			}
+		}
+		if step > 0 && n <= 64 {
+			w.HitIf(reachMask&^reachSeen != 0, "history-later-root-reaches-nodes-unreachable-before")
+		}
+		reachSeen |= reachMask
+
+		// ---- IDom
+		var idom []int
+		idomOK := false
+		pre := modified
+		if call("IDom", "graph-calls-over-budget/IDom", func() { idom = graphalg.IDom(g, root) }) {
+			bad := 0
+			if len(idom) != n {
+				bad = 1
+				viol(kindOf(pre, "IDom-len"), func() string {
+					return fmt.Sprintf("IDom returned %d entries for %d nodes%s; %s", len(idom), n, ctx(pre), c19Describe(c))
+				})
+			} else {
+				first := -1
+				for v := 0; v < n; v++ {
+					if idom[v] != want.idom[v] {
+						if first < 0 {
+							first = v
+						}
+						bad++
+					}
+				}
+				if first >= 0 {
+					why := "closest strict dominator by node deletion"
+					if first == root {
+						why = "the root has none"
+					} else if !want.reach[first] {
+						why = "node is unreachable from the root"
+					}
+					viol(kindOf(pre, "IDom"), func() string {
+						return fmt.Sprintf("IDom[%d]=%d, want %d (%s); %d entries differ%s; %s", first, idom[first], want.idom[first], why, bad, ctx(pre), c19Describe(c))
+					})
+				}
+			}
+			idomOK = bad == 0
+			w.Err("IDom-entries-differing", float64(bad), 0.5)
+		}
+
+		// judgeDom calls Dom(arg) and compares the tree with the inversion of
+		// idom*. what describes arg for the message.
+		judgeDom := func(arg []int, kind, what string) {
+			var tree *graphalg.DomTree
+			w.Eval("Dom")
+			if p, v := mon.Call(inflight("Dom", func() { tree = graphalg.Dom(arg) })); p {
+				viol("panic-"+kind, func() string {
+					return fmt.Sprintf("Dom(%s) panicked: %v; idom*=%v; %s", what, v, c19Short(want.idom), c19Describe(c))
+				})
+				return
+			}
+			if tree == nil {
+				viol(kind, func() string { return fmt.Sprintf("Dom(%s) returned nil; idom*=%v", what, c19Short(want.idom)) })
+				return
+			}
+			msg := ""
+			p, v := mon.Call(func() {
+				if nn := tree.NumNodes(); nn != n {
+					msg = fmt.Sprintf("NumNodes()=%d, want %d", nn, n)
+					return
+				}
+				for v := 0; v < n && msg == ""; v++ {
+					if d := tree.IDom(v); d != want.idom[v] {
+						msg = fmt.Sprintf("IDom(%d)=%d, want %d", v, d, want.idom[v])
+						break
+					}
+					// children of v by inverting idom*
+					sc.kids = sc.kids[:0]
+					for ch, par := range want.idom {
+						if par == v {
+							sc.kids = append(sc.kids, ch)
+						}
+					}
+					gotOut := tree.Out(v)
+					set, dup := sc.sortedSet(gotOut)
+					if dup || len(set) != len(sc.kids) {
 						msg = fmt.Sprintf("Out(%d)=%v, want the children %v", v, gotOut, sc.kids)
 						break
 					}
-				}
-				gotIn := tree.In(v)
-				if want.idom[v] >= 0 {
-					if len(gotIn) != 1 || gotIn[0] != want.idom[v] {
-						msg = fmt.Sprintf("In(%d)=%v, want [%d]", v, gotIn, want.idom[v])
+					for i := range set {
+						if set[i] != sc.kids[i] {
+							msg = fmt.Sprintf("Out(%d)=%v, want the children %v", v, gotOut, sc.kids)
+							break
+						}
 					}
-				} else if !(len(gotIn) == 0 || (len(gotIn) == 1 && gotIn[0] == -1)) {
-					// a node without immediate dominator: no parent, or the -1 marker
-					msg = fmt.Sprintf("In(%d)=%v for a node without immediate dominator", v, gotIn)
+					gotIn := tree.In(v)
+					if want.idom[v] >= 0 {
+						if len(gotIn) != 1 || gotIn[0] != want.idom[v] {
+							msg = fmt.Sprintf("In(%d)=%v, want [%d]", v, gotIn, want.idom[v])
+						}
+					} else if !(len(gotIn) == 0 || (len(gotIn) == 1 && gotIn[0] == -1)) {
+						// a node without immediate dominator: no parent, or the -1 marker
+						msg = fmt.Sprintf("In(%d)=%v for a node without immediate dominator", v, gotIn)
+					}
 				}
-			}
-		})
-		w.EvalN("DomTree.IDom/In/Out", int64(3*n))
-		w.Eval("DomTree.NumNodes")
-		if p {
-			viol("panic-DomTree", func() string { return fmt.Sprintf("inspecting Dom(%v) panicked: %v", want.idom, v) })
-		} else if msg != "" {
-			viol("Dom", func() string { return fmt.Sprintf("Dom(%v): %s; %s", want.idom, msg, c19Describe(c)) })
-		}
-	}
-
-	// ---- DomFrontier with idom given and with idom nil
-	carve := rootIn == 1
-	for pass := 0; pass < 2; pass++ {
-		op, key := "DomFrontier(idom)", "graph-calls-over-budget/DomFrontier(idom)"
-		var arg []int
-		if pass == 0 {
-			sc.idomArg = append(sc.idomArg[:0], want.idom...)
-			arg = sc.idomArg
-		} else {
-			op, key = "DomFrontier(nil)", "graph-calls-over-budget/DomFrontier(nil)"
-		}
-		var df [][]int
-		if !call(op, key, func() { df = graphalg.DomFrontier(g, root, arg) }) {
-			continue
-		}
-		bad := 0
-		for x := 0; x < n; x++ {
-			if !want.reach[x] {
-				continue // entries of unreachable nodes are not claimed
-			}
-			if x >= len(df) {
-				bad++
-				viol("DomFrontier-len", func() string {
-					return fmt.Sprintf("%s returned %d sets, reachable node %d has none; %s", op, len(df), x, c19Describe(c))
+			})
+			w.EvalN("DomTree.IDom/In/Out", int64(3*n))
+			w.Eval("DomTree.NumNodes")
+			if p {
+				viol("panic-"+kind+"Tree", func() string {
+					return fmt.Sprintf("inspecting Dom(%s) panicked: %v; idom*=%v; %s", what, v, c19Short(want.idom), c19Describe(c))
 				})
-				break
+			} else if msg != "" {
+				viol(kind, func() string {
+					return fmt.Sprintf("Dom(%s): %s; idom*=%v%s; %s", what, msg, c19Short(want.idom), ctx(false), c19Describe(c))
+				})
 			}
-			got, dup := sc.sortedSet(df[x])
-			if dup {
-				w.Note("frontier-list-with-duplicates(not judged)")
+		}
+
+		// ---- DomFrontier with idom given and with idom nil; Dom in between.
+		// The pipeline idom := IDom(g, root); DomFrontier(g, root, idom);
+		// Dom(idom) runs on ONE slice: the slice the library's IDom returned
+		// (when it is right; a copy of idom* otherwise) goes to DomFrontier
+		// and, as DomFrontier left it, on to Dom.
+		carve := rootIn == 1
+		for pass := 0; pass < 2; pass++ {
+			op, key := "DomFrontier(idom)", "graph-calls-over-budget/DomFrontier(idom)"
+			var arg []int
+			pipeline := false
+			if pass == 0 {
+				if idomOK {
+					arg, pipeline = idom, true
+					w.Note("pipeline:IDom->DomFrontier->Dom-on-one-slice")
+				} else {
+					sc.idomArg = append(sc.idomArg[:0], want.idom...)
+					arg = sc.idomArg
+				}
+			} else {
+				op, key = "DomFrontier(nil)", "graph-calls-over-budget/DomFrontier(nil)"
 			}
-			wl := want.df[x]
-			ok := true
-			i, j := 0, 0
-			for i < len(got) || j < len(wl) {
-				if carve && i < len(got) && got[i] == root {
-					i++
-					continue
+			var df [][]int
+			pre := modified
+			ok := call(op, key, func() { df = graphalg.DomFrontier(g, root, arg) })
+			if pass == 0 {
+				// the idom argument after the call, and Dom on that very slice
+				changed := -1
+				for i, x := range arg {
+					if x != want.idom[i] {
+						changed = i
+						break
+					}
 				}
-				if carve && j < len(wl) && wl[j] == root {
-					j++
-					continue
+				src := "idom*"
+				if pipeline {
+					src = "the slice returned by IDom"
 				}
-				if i >= len(got) || j >= len(wl) || got[i] != wl[j] {
-					ok = false
-					break
+				if changed < 0 {
+					judgeDom(arg, "Dom", src)
+				} else {
+					// not judged by itself; the tree the caller then builds from
+					// its slice is
+					w.Note("DomFrontier-changed-its-idom-argument")
+					at, now := changed, arg[changed]
+					judgeDom(arg, "pipeline-Dom", fmt.Sprintf("%s after DomFrontier(g, %d, idom) on it, which left idom[%d]=%d where it was %d", src, root, at, now, want.idom[at]))
+					sc.idomArg = append(sc.idomArg[:0], want.idom...)
+					judgeDom(sc.idomArg, "Dom", "idom*")
 				}
-				i++
-				j++
 			}
 			if !ok {
-				bad++
-				note := ""
-				if carve {
-					note = " (root has exactly one in-edge: its membership is not compared)"
-				}
-				viol("DomFrontier", func() string {
-					return fmt.Sprintf("%s[%d]=%v, definition gives %v%s; idom*=%v; %s", op, x, df[x], wl, note, c19Short(want.idom), c19Describe(c))
-				})
-				break
+				continue
 			}
+			bad := 0
+			for x := 0; x < n; x++ {
+				if !want.reach[x] {
+					continue // entries of unreachable nodes are not claimed
+				}
+				if x >= len(df) {
+					bad++
+					viol(kindOf(pre, "DomFrontier-len"), func() string {
+						return fmt.Sprintf("%s returned %d sets, reachable node %d has none%s; %s", op, len(df), x, ctx(pre), c19Describe(c))
+					})
+					break
+				}
+				got, dup := sc.sortedSet(df[x])
+				if dup {
+					w.Note("frontier-list-with-duplicates(not judged)")
+				}
+				wl := want.df[x]
+				ok := true
+				i, j := 0, 0
+				for i < len(got) || j < len(wl) {
+					if carve && i < len(got) && got[i] == root {
+						i++
+						continue
+					}
+					if carve && j < len(wl) && wl[j] == root {
+						j++
+						continue
+					}
+					if i >= len(got) || j >= len(wl) || got[i] != wl[j] {
+						ok = false
+						break
+					}
+					i++
+					j++
+				}
+				if !ok {
+					bad++
+					note := ""
+					if carve {
+						note = " (root has exactly one in-edge: its membership is not compared)"
+					}
+					viol(kindOf(pre, "DomFrontier"), func() string {
+						return fmt.Sprintf("%s[%d]=%v, definition gives %v%s; idom*=%v%s; %s", op, x, df[x], wl, note, c19Short(want.idom), ctx(pre), c19Describe(c))
+					})
+					break
+				}
+			}
+			w.Err("DomFrontier-sets-differing", float64(bad), 0.5)
 		}
-		w.Err("DomFrontier-sets-differing", float64(bad), 0.5)
+
+		if step == 0 && w.WantSample() && n >= 4 && n <= 10 && nReach >= 4 {
+			w.Sample(map[string]any{"out": c19Copy(c.Out), "root": root, "idom_ref": append([]int(nil), want.idom...),
+				"df_ref": c19Copy(want.df), "irreducible": want.irreducible})
+		}
 	}
 
-	if w.WantSample() && n >= 4 && n <= 10 && nReach >= 4 {
-		w.Sample(map[string]any{"out": c19Copy(c.Out), "root": root, "idom_ref": append([]int(nil), want.idom...),
-			"df_ref": c19Copy(want.df), "irreducible": want.irreducible})
+	runRoot(c.Root)
+	for _, r := range c.Roots {
+		if tripped {
+			w.Note("history-cut-short-after-nontermination")
+			break
+		}
+		step++
+		runRoot(r)
 	}
+	if modified {
+		// A library call has changed the caller's graph. Query the same graph
+		// object with other roots (the nodes whose edges were lost first) and
+		// judge the answers against the graph as the caller built it.
+		for _, r := range c19OtherRoots(c, sc.libOut, sc.libIn, in) {
+			if !modified || tripped || c19TotalViol.Load() > c19GiveUp {
+				break
+			}
+			step++
+			w.Note("query-after-modification-with-another-root")
+			runRoot(r)
+		}
+	}
+}
+
+// c19ListDiff describes the first list of the library's view that differs from
+// the caller's graph.
+func c19ListDiff(libOut, out, libIn, in [][]int) string {
+	for _, t := range []struct {
+		name   string
+		got, w [][]int
+	}{{"In", libIn, in}, {"Out", libOut, out}} {
+		for v := range t.w {
+			if !c19SameLists(t.got[v:v+1], t.w[v:v+1]) {
+				return fmt.Sprintf("%s(%d) was %v, is now %v", t.name, v, t.w[v], t.got[v])
+			}
+		}
+	}
+	return "(lists equal)"
+}
+
+// c19OtherRoots chooses the roots for the queries that follow a modification
+// of the graph's lists: first the nodes that lost an edge (members of an
+// original list that are missing from the modified one) and the owners of the
+// modified lists, then the other nodes; every node for up to 8 nodes, at most
+// 8 roots otherwise. The choice depends on the case and the lists only.
+func c19OtherRoots(c c19Case, libOut, libIn, in [][]int) []int {
+	n := len(c.Out)
+	limit := 8
+	seen := map[int]bool{}
+	var roots []int
+	add := func(r int) {
+		if r >= 0 && r < n && !seen[r] && len(roots) < limit {
+			seen[r] = true
+			roots = append(roots, r)
+		}
+	}
+	lost := func(got, want [][]int) {
+		for v := range want {
+			if c19SameLists(got[v:v+1], want[v:v+1]) {
+				continue
+			}
+			cnt := map[int]int{}
+			for _, x := range got[v] {
+				cnt[x]++
+			}
+			for _, x := range want[v] {
+				if cnt[x] > 0 {
+					cnt[x]--
+				} else {
+					add(x)
+				}
+			}
+			add(v)
+		}
+	}
+	lost(libIn, in)
+	lost(libOut, c.Out)
+	for k := 0; k < n; k++ {
+		add((c.Root + 1 + k) % n)
+	}
+	return roots
 }
 
 var c19VCount sync.Map // kind -> *atomic.Int64
 
-// c19TotalViol counts violations of this process; beyond c19GiveUp the
-// remaining workload is skipped (only ever reached when the verdict is
-// already "violated").
+// c19TotalViol counts violations of this process (a call that ran into the
+// step budget counts 40); beyond c19GiveUp the remaining workload is skipped
+// (only ever reached when the verdict is already "violated").
 var c19TotalViol atomic.Int64
 
 const c19GiveUp = 20000
@@ -1180,14 +1492,20 @@ func c19GenLarge(rng *mon.Rand, i int) (c19Case, string) {
 
 func c19Run(r *mon.Run) {
 	maxN := r.Pick(4, 5)
-	r.Rule(fmt.Sprintf("every digraph (adjacency matrix, self-loops included) on 1..%d nodes with every root, successor/predecessor list order varied by case; random matrices on 5..8 nodes; random multigraphs up to 40 nodes: G(n,p) from tree-like to complete, structured (reducible) control flow, planted two-entry cycles and bidirectional chains entered from both ends (one sweep per chain node), each optionally with an unreachable region feeding reachable joins, parallel edges, self-loops, chosen root in-degree, random node numbering and list order; sparse graphs with 1025..2160 nodes. Every case: IDom, Dom(idom*), DomFrontier with idom* and with nil, all through a counting BiGraph. Non-trivial: every case hits a root-in-degree class; distinct by hash of (n, root, all lists).", maxN))
+	r.Rule(fmt.Sprintf("every digraph (adjacency matrix, self-loops included) on 1..%d nodes with every root, successor/predecessor list order varied by case; random matrices on 5..8 nodes; random multigraphs up to 40 nodes: G(n,p) from tree-like to complete, structured (reducible) control flow, planted two-entry cycles and bidirectional chains entered from both ends (one sweep per chain node), each optionally with an unreachable region feeding reachable joins, parallel edges, self-loops, chosen root in-degree, random node numbering and list order; sparse graphs with 1025..2160 nodes. Histories: every digraph on 2..%d nodes with every ordered pair of distinct roots, and random graphs of all the kinds above with 2..6 roots, queried one after another on one graph object that is never rebuilt. Storage of the lists the library sees varied by case: exact capacity, back-to-back sub-slices of one array (capacity reaching into the next list), the same with canary cells between the lists. Every query: IDom, then DomFrontier on the slice IDom returned (a copy of idom* if that was wrong), then Dom on that same slice as DomFrontier left it (and Dom(idom*) if it was changed), then DomFrontier with nil, all through a counting BiGraph and all judged against the reference for the graph as the caller built it; the graph object is never repaired, and once a call has changed its lists it is queried with up to 8 further roots. Non-trivial: every case hits a root-in-degree and a layout class; distinct by hash of (n, roots, layout, all lists).", maxN, r.Pick(3, 4)))
 	r.Assume("reference: dominance by node deletion + reachability (bitmask version <=64 nodes, boolean-matrix version above), cross-checked at start-up against each other, against a dataflow fixed point and against three graphs from the literature",
 		"DomFrontier lists are compared as sets (duplicates are counted, not judged); sets of unreachable nodes are not judged; membership of the root is not compared when the root has exactly one in-edge",
 		"DomTree.In(v) for a node without immediate dominator may be empty or [-1]",
-		"a non-terminating loop that never calls into the graph can only trip the process watchdog (inconclusive)")
+		"a non-terminating loop that never calls into the graph can only trip the process watchdog (inconclusive)",
+		"writes of the library into the graph's lists or into the idom argument are not judged by themselves (only noted): judged are the values later calls return for the same graph object (kind history-after-modification) and the tree Dom builds from the slice that went through DomFrontier (kind pipeline-Dom)",
+		"writes into spare capacity that belongs to no list (canary cells) are noted, not judged")
 	r.Gate("join-with-unreachable-pred", "irreducible-loop", "root-in-0", "root-in-1(carve-out)", "root-in>=2",
 		"parallel-edges-into-join", "reachable-node-id>=1024", "unreachable-nodes", "self-loop", "root-in-some-frontier",
-		"structured", "planted-two-entry-cycle", "two-entry-bidirectional-chain", "density-tree-like", "density-complete")
+		"structured", "planted-two-entry-cycle", "two-entry-bidirectional-chain", "density-tree-like", "density-complete",
+		"layout-exact-capacity", "layout-csr-shared-capacity", "layout-slack-canaries",
+		"shared-array:list-after-root's-in-list-is-a-reachable-join's",
+		"history-several-roots", "history-returns-to-first-root", "history-later-root-reaches-nodes-unreachable-before",
+		"pipeline:IDom->DomFrontier->Dom-on-one-slice")
 
 	st := mon.NewRand(0xc19, 1)
 	if err := ref.DomSelfTest(st.Uint64, r.Pick(3000, 20000)); err != nil {
@@ -1211,7 +1529,9 @@ func c19Run(r *mon.Run) {
 			for m := bi * block; m < (bi+1)*block; m++ {
 				for root := 0; root < n; root++ {
 					variant := (m*7 + root*3 + m>>5) & 3
-					c19Judge(w, sc.matrixCase(n, uint64(m), root, variant), sc, keepDistinct)
+					c := sc.matrixCase(n, uint64(m), root, variant)
+					c.Layout = int((uint(m)*2654435761>>7 + uint(root)) % 3)
+					c19Judge(w, c, sc, keepDistinct)
 				}
 			}
 		})
@@ -1241,13 +1561,96 @@ func c19Run(r *mon.Run) {
 		}
 		variant := rng.Intn(4)
 		for root := 0; root < n; root++ {
-			c19Judge(w, sc.matrixCase(n, m, root, variant), sc, true)
+			c := sc.matrixCase(n, m, root, variant)
+			c.Layout = rng.Intn(3)
+			c19Judge(w, c, sc, true)
 		}
+	})
+
+	// ---- histories: several roots queried one after another on one and the
+	// same graph object (never rebuilt or repaired in between)
+	histN := r.Pick(3, 4)
+	for n := 2; n <= histN; n++ {
+		n := n
+		total := 1 << uint(n*n)
+		block := total
+		if block > 512 {
+			block = 512
+		}
+		r.Parallel(fmt.Sprintf("history-exhaustive-n%d", n), total/block, func(w *mon.W, bi int) {
+			sc := c19Pool.Get().(*c19Scratch)
+			defer c19Pool.Put(sc)
+			var second [1]int
+			for m := bi * block; m < (bi+1)*block; m++ {
+				for r1 := 0; r1 < n; r1++ {
+					for r2 := 0; r2 < n; r2++ {
+						if r1 == r2 {
+							continue
+						}
+						c := sc.matrixCase(n, uint64(m), r1, (m+r1+r2)&3)
+						second[0] = r2
+						c.Roots = second[:]
+						if n <= 3 {
+							for c.Layout = 0; c.Layout < 3; c.Layout++ {
+								c19Judge(w, c, sc, true)
+							}
+						} else {
+							c.Layout = int((uint(m)*2654435761>>9 + uint(r1*5+r2)) % 3)
+							c19Judge(w, c, sc, false)
+						}
+					}
+				}
+			}
+		})
+		r.Exhaustive(fmt.Sprintf("history: all %d adjacency matrices on %d nodes x every ordered pair of distinct roots queried on one graph object", total, n))
+	}
+	r.Parallel("history-random", r.Pick(120000, 300000), func(w *mon.W, i int) {
+		rng := w.Rng
+		var c c19Case
+		var sc *c19Scratch
+		switch i % 8 {
+		default: // random matrices on 3..8 nodes
+			sc = c19Pool.Get().(*c19Scratch)
+			defer c19Pool.Put(sc)
+			n := rng.Range(3, 8)
+			m := rng.Uint64()
+			switch rng.Intn(3) {
+			case 0:
+				m &= rng.Uint64()
+			case 1:
+				m &= rng.Uint64() & rng.Uint64()
+			}
+			if n*n < 64 {
+				m &= 1<<uint(n*n) - 1
+			}
+			c = sc.matrixCase(n, m, rng.Intn(n), rng.Intn(4))
+		case 5:
+			c, _ = c19GenDensity(rng, rng.Intn(10))
+		case 6:
+			c, _ = c19GenStructured(rng, rng.Intn(3))
+		case 7:
+			c, _ = c19GenIrreducible(rng, rng.Intn(4))
+		}
+		n := len(c.Out)
+		k := rng.Range(1, 5)
+		if k > n {
+			k = n
+		}
+		c.Roots = make([]int, k)
+		for j := range c.Roots {
+			c.Roots[j] = rng.Intn(n)
+		}
+		if rng.Intn(3) == 0 {
+			c.Roots[k-1] = c.Root // back to the first root
+		}
+		c.Layout = rng.Intn(3)
+		c19Judge(w, c, sc, true)
 	})
 
 	gen := func(class string, count int, f func(*mon.Rand, int) (c19Case, string)) {
 		r.Parallel(class, count, func(w *mon.W, i int) {
 			c, label := f(w.Rng, i)
+			c.Layout = w.Rng.Intn(3)
 			w.Hit(label)
 			c19Judge(w, c, nil, true)
 		})
@@ -1261,6 +1664,7 @@ func c19Run(r *mon.Run) {
 	debug.SetMaxStack(512 << 20)
 	r.ParallelN("large-ids", r.Pick(32, 96), 4, func(w *mon.W, i int) {
 		c, label := c19GenLarge(w.Rng, i)
+		c.Layout = i % 3
 		w.Hit(label)
 		c19Judge(w, c, nil, true)
 	})
